@@ -20,7 +20,7 @@ type Config struct {
 }
 
 func (c Config) String() string {
-	return fmt.Sprintf("max=%d callers=%d budget=%d/%d/%d", c.Max, c.Callers, c.B.Cancel, c.B.Die, c.B.Retry)
+	return fmt.Sprintf("max=%d callers=%d budget=%d/%d/%d/%d", c.Max, c.Callers, c.B.Cancel, c.B.Die, c.B.Retry, c.B.Close)
 }
 
 func contains(xs []int64, x int64) bool {
@@ -58,6 +58,18 @@ func (r *Run) Step(ch choice, pre obs) (string, bool) {
 		g.cancelled = true
 		g.cancel()
 		return fmt.Sprintf("ca:%d", ch.idx), true
+	}
+	if ch.act == "cl" {
+		r.dcClosed = true
+		go func() {
+			defer func() { _ = recover() }()
+			_ = r.dc.Close() // blocks until every connection's Run has returned
+		}()
+		deadline := time.Now().Add(Patience())
+		for !pool.VerifC27Snapshot(r.dc).Closed && time.Now().Before(deadline) {
+			time.Sleep(10 * time.Microsecond)
+		}
+		return "cl", true
 	}
 	g := ch.g
 	prePoint, preKey, preConn, preWhy := g.point, g.key, g.conn, g.why
@@ -108,6 +120,8 @@ func (r *Run) Step(ch choice, pre obs) (string, bool) {
 			handout(g.conn)
 		case newPC == "S":
 			tok = fmt.Sprintf("cw:%d:d", i)
+		case strings.Contains(g.result, "DC closed"):
+			tok = fmt.Sprintf("cw:%d:x", i)
 		default:
 			tok = fmt.Sprintf("cw:%d:c", i)
 			if r.expectBg {
@@ -132,6 +146,8 @@ func (r *Run) Step(ch choice, pre obs) (string, bool) {
 		}
 	case "ww":
 		switch {
+		case strings.HasPrefix(newPC, "G") && g.why == "ctx" && !g.cancelled:
+			tok = fmt.Sprintf("ww:%d:x", i) // left through c.ctx.Done()
 		case strings.HasPrefix(newPC, "G"):
 			tok = fmt.Sprintf("ww:%d:%s", i, g.why[:1])
 		default:
@@ -187,7 +203,7 @@ func (r *Run) Step(ch choice, pre obs) (string, bool) {
 		switch {
 		case k != "?":
 			tok = fmt.Sprintf("bg:%d:r:%s", i, k)
-		case deadBefore[c]:
+		case deadBefore[c] || r.dcClosed:
 			tok = fmt.Sprintf("bg:%d:d:-", i)
 		default:
 			tok = fmt.Sprintf("bg:%d:r:?", i)
@@ -279,6 +295,8 @@ func Execute(cfg Config, expectBg bool, choose Chooser) Outcome {
 			b.Die--
 		case ch.act == "fi" && ch.what == "retry":
 			b.Retry--
+		case ch.act == "cl":
+			b.Close--
 		}
 		tok, ok := r.Step(ch, pre)
 		out.Schedule = append(out.Schedule, ch.String())
